@@ -29,6 +29,10 @@ func main() {
 			fmt.Println(err)
 			os.Exit(2)
 		}
+		if parts[0] == "search" {
+			rules.DebugSearch(p, parts[1], parts[2], parts[3])
+			return
+		}
 		if parts[0] == "push" {
 			rules.DebugPush(p, parts[1])
 			return
